@@ -51,3 +51,32 @@ def register(R):
         env={"rely_havoc": ["var:winner"], "rely_inv": ["isnone(winner) or not winner.mine"]},
         tags="C19",
     )
+
+    # --- the race itself -------------------------------------------------------------------------------------------
+    # Children (try_connect, above) run at the suspension points of the host function: its rely condition lets them open
+    # and close sockets and set `winner`, constrained by what their own contract guarantees once they have ALL finished
+    # (ghost.children_running == 0, established by the task group's join): exactly the winner, if any, is left open.
+    R.ghost(children_running="int")
+    R.module("verif-stubs/async_backend.py")
+    R.shape("JoinTaskGroupModel", cls="JoinTaskGroup", fields={})
+    R.module("easynetwork/lowlevel/api_async/backend/abc.py")
+    R.contract("AsyncBackend.create_task_group", result="JoinTaskGroupModel", trusted=True, ensures=["True"])
+    R.module("easynetwork/lowlevel/api_async/backend/_common/dns_resolver.py")
+    R.contract("_interleave_addrinfos", params={"addrinfos": "objseq", "first_address_family_count": "int"}, result="objseq", trusted=True, ensures=["True"])
+    R.contract("_prioritize_ipv6_over_ipv4", params={"addrinfos": "objseq"}, result="objseq", trusted=True, ensures=["True"])
+    joined = f"implies(ghost.children_running == 0, ghost.open_sockets == {OPEN0} + (0 if isnone(winner) else 1))"
+    R.contract(
+        "BaseAsyncDNSResolver._staggered_race_connection_impl",
+        params={"backend": "AsyncBackend", "remote_addrinfo": "objseq", "local_addrinfo": "opt[objseq]", "happy_eyeballs_delay": "xreal"},
+        result="RawSocketModel",
+        locals_types={"winner": "opt[RawSocketModel]"},
+        requires=[("no-child-of-this-race-is-running-yet", "ghost.children_running == 0")],
+        loops={1: {"inv": ["ghost.children_running >= 0", "implies(bound('winner') and not isnone(winner), not winner.closed)",
+                           f"implies(ghost.children_running == 0, ghost.open_sockets == {OPEN0} + (0 if isnone(winner) else 1))"]}},
+        ensures=[("exactly-the-returned-socket-is-left-open", f"ghost.open_sockets == {OPEN0} + 1 and not result.closed", "C19")],
+        raises={"BaseException": [("failed-or-cancelled-race-leaves-no-socket-open (the winner too is closed)", f"ghost.open_sockets == {OPEN0}", "C19 C14")]},
+        modifies=["ghost.open_sockets", "ghost.children_running"],
+        env={"rely_havoc": ["var:winner", "ghost.open_sockets"],
+             "rely_inv": [joined, "implies(not isnone(winner), not winner.closed)"]},
+        tags="C19",
+    )
